@@ -33,3 +33,7 @@ def run(repo, res, tier):
     # tables themselves (bytes of attached image data must not become part of the token)
     from . import common as _c
     _c.rule_i1(repo, res)
+    # the same file gives the same text whether a path, an open file or a stream is handed over (the command-line
+    # tools hand over open files, the library functions usually paths)
+    from .. import entryrules as _er
+    _er.rule_f4(repo, res)
